@@ -147,4 +147,342 @@ structure Inv (e : Env) (dir0 : Dir) (rf : Prop) (st : WState) : Prop where
   /-- control state while running -/
   run : st.status = .running → RunClause e dir0 st
 
+theorem partialContent_prefix (cur handed : List UInt8) (w : Nat) :
+    partialContent cur handed w <+: handed := List.take_prefix _ _
+
+theorem Inv.mono {e : Env} {dir0 : Dir} {rf rf' : Prop} {st : WState} (h : rf → rf')
+    (i : Inv e dir0 rf st) : Inv e dir0 rf' st :=
+  ⟨i.frame, i.final, i.temp, fun hs => (i.err hs).imp h id, i.ok, i.run⟩
+
+theorem inv_init (e : Env) (dir0 : Dir) : Inv e dir0 False (init dir0) := by
+  refine ⟨fun _ _ _ => rfl, Or.inl rfl, Or.inl rfl, ?_, ?_, ?_⟩ <;> simp [init, RunClause]
+
+/-- facts shared by all control points after `create` -/
+structure Mid (e : Env) (dir0 : Dir) (dir : Dir) (handed : List UInt8) : Prop where
+  frame : ∀ name, name ≠ e.temp → name ≠ fileName e.tails → dirGet dir name = dirGet dir0 name
+  fresh : dirGet dir0 e.temp = none
+  cur : ∃ c, dirGet dir e.temp = some c ∧ c <+: handed
+  fin : dirGet dir (fileName e.tails) = dirGet dir0 (fileName e.tails)
+
+theorem Mid.frame' {e : Env} {dir0 dir : Dir} {handed : List UInt8} (m : Mid e dir0 dir handed) :
+    ∀ name, name ≠ e.temp → dirGet dir name = dirGet dir0 name := by
+  intro n h1
+  by_cases h2 : n = fileName e.tails
+  · subst h2; exact m.fin
+  · exact m.frame n h1 h2
+
+theorem inv_errPath {e : Env} {dir0 : Dir} {rf : Prop} (f : Fault)
+    (hne : e.temp ≠ fileName e.tails) (dir : Dir) (handed : List UInt8)
+    (hframe : ∀ name, name ≠ e.temp → dirGet dir name = dirGet dir0 name)
+    (hfresh : dirGet dir0 e.temp = none)
+    (hcur : ∃ c, dirGet dir e.temp = some c ∧ c <+: fileBytes e.tails) :
+    Inv e dir0 (rf ∨ f.removeFails = true) (errPath e f dir handed) := by
+  unfold errPath
+  by_cases hr : f.removeFails = true
+  · rw [if_pos hr]
+    refine ⟨fun n h1 _ => hframe n h1, Or.inl (hframe _ (Ne.symm hne)), Or.inr (Or.inr hcur),
+      fun _ => Or.inl (Or.inr hr), ?_, ?_⟩ <;> simp
+  · rw [if_neg hr]
+    refine ⟨?_, ?_, ?_, ?_, ?_, ?_⟩
+    · intro n h1 _; simp [dirGet_dirDel, h1, hframe n h1]
+    · left; simp [dirGet_dirDel, Ne.symm hne, hframe _ (Ne.symm hne)]
+    · right; left; simp [dirGet_dirDel]
+    · intro _; right; intro n
+      by_cases hn : n = e.temp
+      · subst hn; simp [dirGet_dirDel, hfresh]
+      · simp [dirGet_dirDel, hn, hframe n hn]
+    · simp
+    · simp
+
+theorem mid_put {e : Env} {dir0 dir : Dir} {handed handed' c : List UInt8}
+    (hne : e.temp ≠ fileName e.tails) (m : Mid e dir0 dir handed) (hc : c <+: handed') :
+    Mid e dir0 (dirPut dir e.temp c) handed' := by
+  refine ⟨?_, m.fresh, ⟨c, by simp [dirGet_dirPut], hc⟩, ?_⟩
+  · intro n h1 h2; simp [dirGet_dirPut, h1, m.frame n h1 h2]
+  · simp [dirGet_dirPut, Ne.symm hne, m.fin]
+
+theorem inv_bufStep {e : Env} {dir0 : Dir} {rf : Prop} {st : WState} (f : Fault)
+    (hne : e.temp ≠ fileName e.tails) (data : List UInt8) (flushAll : Bool) (next : Pc)
+    (m : Mid e dir0 st.dir st.handed)
+    (hpre : st.handed ++ data <+: fileBytes e.tails)
+    (hnext : ∀ dir', Mid e dir0 dir' (st.handed ++ data) →
+      (flushAll = true → dirGet dir' e.temp = some (st.handed ++ data)) →
+      RunClause e dir0 ⟨dir', st.handed ++ data, next, .running⟩) :
+    Inv e dir0 (rf ∨ f.removeFails = true) (bufStep e f data flushAll next st) := by
+  unfold bufStep
+  have hp := partialContent_prefix ((dirGet st.dir e.temp).getD []) (st.handed ++ data) f.written
+  have mP := mid_put hne m hp
+  cases ho : f.outcome with
+  | ok =>
+    simp only
+    have mN : Mid e dir0 (if flushAll = true then dirPut st.dir e.temp (st.handed ++ data)
+        else dirPut st.dir e.temp (partialContent ((dirGet st.dir e.temp).getD []) (st.handed ++ data) f.written))
+        (st.handed ++ data) := by
+      split
+      · exact mid_put hne m (List.prefix_refl _)
+      · exact mP
+    obtain ⟨c, hc1, hc2⟩ := mN.cur
+    refine ⟨mN.frame, Or.inl mN.fin, Or.inr (Or.inr ⟨c, hc1, hc2.trans hpre⟩), by simp, by simp, ?_⟩
+    intro _
+    apply hnext _ mN
+    intro hf; simp [hf, dirGet_dirPut]
+  | error =>
+    simp only
+    obtain ⟨c, hc1, hc2⟩ := mP.cur
+    exact inv_errPath f hne _ _ mP.frame' m.fresh ⟨c, hc1, hc2.trans hpre⟩
+  | crash =>
+    simp only
+    obtain ⟨c, hc1, hc2⟩ := mP.cur
+    refine ⟨mP.frame, Or.inl mP.fin, Or.inr (Or.inr ⟨c, hc1, hc2.trans hpre⟩), by simp, by simp, by simp⟩
+
+
+theorem take_flatten_prefix (tails : List (List UInt8)) (i : Nat) :
+    versionTag ++ (tails.take i).flatten <+: fileBytes tails := by
+  unfold fileBytes
+  refine (List.prefix_append_right_inj _).mpr ?_
+  conv => rhs; rw [← List.take_append_drop i tails, List.flatten_append]
+  exact List.prefix_append _ _
+
+theorem take_succ_flatten {tails : List (List UInt8)} {i : Nat} {t : List UInt8}
+    (h : tails[i]? = some t) : (tails.take (i + 1)).flatten = (tails.take i).flatten ++ t := by
+  rw [List.take_add_one, h]; simp
+
+theorem runClause_nextTail {e : Env} {dir0 dir : Dir} (i : Nat) (hi : i ≤ e.tails.length)
+    (m : Mid e dir0 dir (versionTag ++ (e.tails.take i).flatten)) :
+    RunClause e dir0 ⟨dir, versionTag ++ (e.tails.take i).flatten, nextTail e i, .running⟩ := by
+  unfold nextTail
+  split
+  · rename_i h; exact ⟨h, rfl, m.fresh, m.cur, m.fin⟩
+  · rename_i h
+    have : e.tails.take i = e.tails := List.take_of_length_le (by omega)
+    simp only [RunClause, this, fileBytes]
+    exact ⟨trivial, m.fresh, by simpa [this] using m.cur, m.fin⟩
+
+theorem inv_step {e : Env} {dir0 : Dir} {rf : Prop} {st : WState} (f : Fault)
+    (hne : e.temp ≠ fileName e.tails) (i : Inv e dir0 rf st) :
+    Inv e dir0 (rf ∨ f.removeFails = true) (stepW e f st) := by
+  unfold stepW
+  split
+  next hrun =>
+    have rc := i.run hrun
+    unfold RunClause at rc
+    split
+    next hpc =>
+      -- create
+      rw [hpc] at rc
+      obtain ⟨hh, hd⟩ := rc
+      split
+      next c hc =>
+        split
+        · refine ⟨i.frame, i.final, i.temp, by simp, by simp, by simp⟩
+        · exact ⟨i.frame, i.final, i.temp, fun _ => Or.inr hd, by simp, by simp⟩
+      next hc =>
+        have hfresh : dirGet dir0 e.temp = none := by rw [← hd]; exact hc
+        have m0 : Mid e dir0 (dirPut st.dir e.temp []) [] := by
+          refine ⟨?_, hfresh, ⟨[], by simp [dirGet_dirPut], List.prefix_refl _⟩, ?_⟩
+          · intro n h1 _; simp [dirGet_dirPut, h1, hd]
+          · simp [dirGet_dirPut, Ne.symm hne, hd]
+        split
+        · refine ⟨m0.frame, Or.inl m0.fin, Or.inr (Or.inr ⟨[], by simp [dirGet_dirPut], List.nil_prefix⟩),
+            by simp, by simp, fun _ => ?_⟩
+          exact ⟨rfl, hfresh, m0.cur, m0.fin⟩
+        · exact ⟨i.frame, i.final, i.temp, fun _ => Or.inr hd, by simp, by simp⟩
+        · split
+          · exact ⟨i.frame, i.final, i.temp, by simp, by simp, by simp⟩
+          · exact ⟨m0.frame, Or.inl m0.fin, Or.inr (Or.inr ⟨[], by simp [dirGet_dirPut], List.nil_prefix⟩),
+              by simp, by simp, by simp⟩
+    next hpc =>
+      -- header
+      rw [hpc] at rc
+      obtain ⟨hh, hfresh, hcur, hfin⟩ := rc
+      have m : Mid e dir0 st.dir st.handed := ⟨i.frame, hfresh, hcur, hfin⟩
+      apply inv_bufStep f hne _ _ _ m
+      · rw [hh]; simpa using take_flatten_prefix e.tails 0
+      · intro dir' m' _
+        rw [hh] at m' ⊢
+        have := runClause_nextTail (e := e) (dir0 := dir0) (dir := dir') 0 (Nat.zero_le _) (by simpa using m')
+        simpa using this
+    next j hpc =>
+      -- tail j
+      rw [hpc] at rc
+      obtain ⟨hj, hh, hfresh, hcur, hfin⟩ := rc
+      have m : Mid e dir0 st.dir st.handed := ⟨i.frame, hfresh, hcur, hfin⟩
+      split
+      next t ht =>
+        have hts := take_succ_flatten ht
+        apply inv_bufStep f hne _ _ _ m
+        · rw [hh, List.append_assoc, ← hts]; exact take_flatten_prefix _ _
+        · intro dir' m' _
+          rw [hh, List.append_assoc, ← hts] at m' ⊢
+          exact runClause_nextTail (j + 1) hj m'
+      next hn =>
+        exfalso
+        rw [List.getElem?_eq_none_iff] at hn; omega
+    next hpc =>
+      -- flush
+      rw [hpc] at rc
+      obtain ⟨hh, hfresh, hcur, hfin⟩ := rc
+      have m : Mid e dir0 st.dir st.handed := ⟨i.frame, hfresh, hcur, hfin⟩
+      apply inv_bufStep f hne _ _ _ m
+      · rw [hh]; simp
+      · intro dir' m' hf
+        simp only [List.append_nil] at m' hf ⊢
+        exact ⟨hh, hfresh, hf trivial, m'.fin⟩
+    next hpc =>
+      -- close
+      rw [hpc] at rc
+      obtain ⟨hh, hfresh, hcur, hfin⟩ := rc
+      have m : Mid e dir0 st.dir st.handed := ⟨i.frame, hfresh, ⟨_, hcur, List.prefix_refl _⟩, hfin⟩
+      split
+      · refine ⟨i.frame, i.final, i.temp, by simp [hrun], by simp [hrun], fun _ => ?_⟩
+        exact ⟨hh, hfresh, hcur, hfin⟩
+      · exact inv_errPath f hne _ _ m.frame' hfresh ⟨_, hcur, by rw [hh]; exact List.prefix_refl _⟩
+      · exact ⟨i.frame, i.final, i.temp, by simp, by simp, by simp⟩
+    next hpc =>
+      -- rename
+      rw [hpc] at rc
+      obtain ⟨hh, hfresh, hcur, hfin⟩ := rc
+      have m : Mid e dir0 st.dir st.handed := ⟨i.frame, hfresh, ⟨_, hcur, List.prefix_refl _⟩, hfin⟩
+      have hname : base58 (sha256 st.handed) = fileName e.tails := by rw [hh]; rfl
+      have hren : Inv e dir0 (rf ∨ f.removeFails = true)
+          ⟨dirRename st.dir e.temp (fileName e.tails), st.handed, .rename, .crashed⟩ := by
+        refine ⟨?_, Or.inr ?_, Or.inr (Or.inl ?_), by simp, by simp, by simp⟩
+        · intro n h1 h2; simp [dirGet_dirRename hcur, h1, h2, i.frame n h1 h2]
+        · simp [dirGet_dirRename hcur, hh]
+        · simp [dirGet_dirRename hcur, hne]
+      simp only [hname]
+      split
+      · refine ⟨hren.frame, hren.final, hren.temp, by simp, ?_, by simp⟩
+        intro loc h heq
+        simp only [Status.ok.injEq] at heq
+        obtain ⟨h1, h2⟩ := heq
+        subst h2
+        refine ⟨rfl, h1.symm, ?_, ?_, hfresh⟩
+        · simp [dirGet_dirRename hcur, hh]
+        · simp [dirGet_dirRename hcur, hne]
+      · exact inv_errPath f hne _ _ m.frame' hfresh ⟨_, hcur, by rw [hh]; exact List.prefix_refl _⟩
+      · split
+        · exact ⟨i.frame, i.final, i.temp, by simp, by simp, by simp⟩
+        · exact hren
+  next hnr =>
+    exact i.mono Or.inl
+
+theorem temp_ne_final (e : Env) : e.temp ≠ fileName e.tails := tempName_ne_base58 _ _
+
+/-- some `remove_file` of the guard failed among the first `k` steps -/
+def RemoveFailed (faults : Nat → Fault) (k : Nat) : Prop := ∃ j, j < k ∧ (faults j).removeFails = true
+
+theorem inv_run (e : Env) (dir0 : Dir) (faults : Nat → Fault) (k : Nat) :
+    Inv e dir0 (RemoveFailed faults k) (runW e faults k (init dir0)) := by
+  induction k with
+  | zero => exact (inv_init e dir0).mono False.elim
+  | succ k ih =>
+    refine (inv_step (faults k) (temp_ne_final e) ih).mono ?_
+    rintro (⟨j, hj, h⟩ | h)
+    · exact ⟨j, by omega, h⟩
+    · exact ⟨k, by omega, h⟩
+
+/-- control point reached after `k` fault-free steps -/
+def pcAt (e : Env) (k : Nat) : Pc :=
+  if k = 0 then .create else if k = 1 then .header
+  else if k < e.tails.length + 2 then .tail (k - 2)
+  else if k = e.tails.length + 2 then .flush
+  else if k = e.tails.length + 3 then .close else .rename
+
+theorem bufStep_ok {e : Env} {f : Fault} (h : f.outcome = .ok) (data : List UInt8) (b : Bool) (next : Pc)
+    (st : WState) : (bufStep e f data b next st).status = .running ∧ (bufStep e f data b next st).pc = next := by
+  simp [bufStep, h]
+
+
+/-- successor control point of a fault-free step -/
+def nextPc (e : Env) : Pc → Pc
+  | .create => .header
+  | .header => nextTail e 0
+  | .tail i => nextTail e (i + 1)
+  | .flush => .close
+  | .close => .rename
+  | .rename => .rename
+
+theorem step_ok_pc {e : Env} {dir0 : Dir} {f : Fault} {st : WState} (hf : f.outcome = .ok)
+    (hfresh : dirGet dir0 e.temp = none) (hs : st.status = .running) (rc : RunClause e dir0 st)
+    (hp : st.pc ≠ .rename) :
+    (stepW e f st).status = .running ∧ (stepW e f st).pc = nextPc e st.pc := by
+  unfold stepW
+  simp only [hs]
+  unfold RunClause at rc
+  cases hpc : st.pc with
+  | create =>
+    rw [hpc] at rc
+    have : dirGet st.dir e.temp = none := by rw [rc.2]; exact hfresh
+    simp [this, hf, nextPc]
+  | header => simp only [nextPc]; exact bufStep_ok hf _ _ _ _
+  | tail i =>
+    rw [hpc] at rc
+    have : e.tails[i]? = some e.tails[i] := List.getElem?_eq_getElem rc.1
+    simp only [nextPc, this]; exact bufStep_ok hf _ _ _ _
+  | flush => simp only [nextPc]; exact bufStep_ok hf _ _ _ _
+  | close => simp [hf, nextPc]
+  | rename => exact absurd hpc hp
+
+theorem pcAt_succ (e : Env) (k : Nat) (hk : k ≤ e.tails.length + 3) :
+    pcAt e (k + 1) = nextPc e (pcAt e k) := by
+  have hT : ∀ j, 2 ≤ j → j < e.tails.length + 2 → pcAt e j = .tail (j - 2) := by
+    intro j h1 h2; grind [pcAt]
+  have hF : pcAt e (e.tails.length + 2) = .flush := by grind [pcAt]
+  have hC : pcAt e (e.tails.length + 3) = .close := by grind [pcAt]
+  have hR : pcAt e (e.tails.length + 4) = .rename := by grind [pcAt]
+  have h0 : pcAt e 0 = .create := by grind [pcAt]
+  have h1 : pcAt e 1 = .header := by grind [pcAt]
+  by_cases a0 : k = 0
+  · subst a0; rw [h0, h1]; rfl
+  by_cases a1 : k = 1
+  · subst a1
+    rw [h1]; simp only [nextPc, nextTail]
+    split
+    · rw [hT 2 (by omega) (by omega)]
+    · have : e.tails.length = 0 := by omega
+      rw [show 1 + 1 = e.tails.length + 2 by omega, hF]
+  by_cases a2 : k < e.tails.length + 2
+  · rw [hT k (by omega) a2]; simp only [nextPc, nextTail]
+    split
+    · rw [hT (k + 1) (by omega) (by omega)]; congr 1; omega
+    · rw [show k + 1 = e.tails.length + 2 by omega, hF]
+  by_cases a3 : k = e.tails.length + 2
+  · subst a3; rw [hF, hC]; rfl
+  · have a4 : k = e.tails.length + 3 := by omega
+    subst a4; rw [hC, hR]; rfl
+
+/-- without faults and with a fresh temp name the machine walks through all control points -/
+theorem run_ok_progress (e : Env) (dir0 : Dir) (faults : Nat → Fault)
+    (hok : ∀ j, (faults j).outcome = .ok) (hfresh : dirGet dir0 e.temp = none) (k : Nat)
+    (hk : k ≤ e.tails.length + 4) :
+    (runW e faults k (init dir0)).status = .running ∧ (runW e faults k (init dir0)).pc = pcAt e k := by
+  induction k with
+  | zero => simp [runW, init, pcAt]
+  | succ k ih =>
+    obtain ⟨hs, hp⟩ := ih (by omega)
+    have rc := (inv_run e dir0 faults k).run hs
+    have hne : (runW e faults k (init dir0)).pc ≠ .rename := by
+      rw [hp]; intro h; grind [pcAt]
+    have := step_ok_pc (hok k) hfresh hs rc hne
+    simp only [runW]
+    rw [pcAt_succ e k (by omega), ← hp]
+    exact this
+
+/-- the last step of a fault-free run returns `Ok` -/
+theorem run_ok_final (e : Env) (dir0 : Dir) (faults : Nat → Fault)
+    (hok : ∀ j, (faults j).outcome = .ok) (hfresh : dirGet dir0 e.temp = none) :
+    (runW e faults (totalSteps e) (init dir0)).status =
+      .ok ⟨e.root, fileName e.tails⟩ (fileName e.tails) := by
+  obtain ⟨hs, hp⟩ := run_ok_progress e dir0 faults hok hfresh (e.tails.length + 4) (Nat.le_refl _)
+  have rc := (inv_run e dir0 faults (e.tails.length + 4)).run hs
+  have hR : pcAt e (e.tails.length + 4) = .rename := by grind [pcAt]
+  rw [hR] at hp
+  unfold RunClause at rc
+  rw [hp] at rc
+  show (stepW e (faults (e.tails.length + 4)) _).status = _
+  unfold stepW
+  simp only [hs, hp, hok, rc.1]
+  rfl
+
 end AnonModel.Tails
